@@ -249,7 +249,23 @@ def check(model, rep, tier):
         if isinstance(st, (ast.If, ast.For, ast.While, ast.Try)):
           continue
         calls += [c for c in ast.walk(st) if isinstance(c, ast.Call)]
-      texts = [core.norm(c) for c in calls]
+      class _Same(ast.NodeTransformer):
+        # generic_visit and the two annotators hand back the node they were given
+        def visit_Call(self, c):
+          self.generic_visit(c)
+          if core.norm(c.func) in ('self.generic_visit', 'self._block_statement_live_out',
+                                   'self._block_statement_live_in') and c.args:
+            return c.args[0]
+          return c
+
+      def ident(e, at):
+        return core.norm(_Same().visit(tpl.expand(m, e, at)))
+      texts = []
+      for c in calls:
+        f_ = core.norm(c.func)
+        if f_ in ('self.generic_visit', 'self._block_statement_live_out',
+                  'self._block_statement_live_in') and c.args:
+          texts.append('%s(%s)' % (f_, ', '.join(ident(a, c) for a in c.args)))
       facts = {'calls': texts}
       ok = ('self._block_statement_live_in(%s, %s%s)' % (p, p, entry)) in texts and (
           h == 'visit_With' or ('self._block_statement_live_out(%s)' % p) in texts) \
